@@ -103,7 +103,7 @@ impl W3 {
             ("CARGO_PKG_NAME", &["a", "zzz"]),
             ("CARGO_CRATE_NAME", &["a", "my_crate"]),
             ("CARGO_PKG_VERSION", &["0.1.0", "12.3.4-beta.1"]),
-            ("CARGO_PKG_RUST_VERSION", &["1.60", "1.81.0", ""]),
+            ("CARGO_PKG_RUST_VERSION", &["1.60", "1.81.0", "1.90.0", ""]),
             ("CARGO_MANIFEST_DIR", &["/sim/ws/a", "/sim/ws/b"]),
             ("OUT_DIR", &["/sim/out-1", "/sim/out-2"]),
             ("PROFILE", &["debug", "release"]),
@@ -436,7 +436,7 @@ pub fn run(a: &Args, tier: &str, seed: u64) -> Result<E3Result, String> {
     }
     for k in 0..n_gen {
         let opts = GenOpts { error_pct: 35, into_heavy: rng.chance(1, 2) };
-        let t = gen::generate(&mut rng, &format!("E{k}"), &opts);
+        let t = if rng.chance(1, 6) { gen::param_probe(&mut rng, &format!("E{k}")) } else { gen::generate(&mut rng, &format!("E{k}"), &opts) };
         all.push((all.len(), t));
     }
 
